@@ -464,7 +464,16 @@ func (i *IRCServer) ProcessMessage(msg *robust.Message, ircmsg *irc.Message) *Re
 				Command: irc.ERROR,
 				Params:  []string{"Closing Link: You are banned (" + reason + ")"},
 			})
-			i.deleteSessionLocked(s, reply.msgid)
+			if s.Server {
+				// Also end the sessions which the services link introduced
+				// (NickServ etc.): nothing else could ever remove them.
+				i.cmdServerQuit(s, reply, &irc.Message{
+					Command: irc.QUIT,
+					Params:  []string{"Banned (" + reason + ")"},
+				})
+			} else {
+				i.deleteSessionLocked(s, reply.msgid)
+			}
 			return reply
 		}
 	}
